@@ -133,9 +133,11 @@ def closure_part(rep, tmp):
         open(p, "w").write(src)
         files[nm] = p
     fid = {}
-    with Registry():
-        for nm, M in (("M1", M1), ("M1p", M1p), ("M2", M2)):
-            fid[nm] = formula_id(NaniteFitModel(M))
+    for nm, M in (("M1", M1), ("M1p", M1p), ("M2", M2)):
+        # reference: the module's own function, evaluated directly
+        P = M.get_parameter_defaults()
+        xx = np.array([1e-6, 0.0, -1e-6, -2e-6])
+        fid[nm] = cn.digest(M.model_func(xx, **P.valuesdict()))
     KEY = {"M1": "vk1", "M1p": "vk1", "M2": "vk2",
            "vfile_a": "vk1", "vfile_ap": "vk1", "vfile_b": "vk2"}
     FORM = {"M1": fid["M1"], "M1p": fid["M1p"], "M2": fid["M2"],
